@@ -171,6 +171,9 @@ func (tw *TimingWheel) drainAll(fn func(key, value any)) {
 			slot.Remove(e)
 			e = next
 			if !task.removed {
+				// the task leaves the wheel, forget its position as well,
+				// otherwise a later SetTimer/MoveTimer on the key updates a dangling entry.
+				tw.timers.Del(task.key)
 				runner.Schedule(func() {
 					fn(task.key, task.value)
 				})
